@@ -20,6 +20,7 @@ class Cfg:
         self.max_bits = 10
         self.mul_max_w = 4
         self.p_matrix = 0.2
+        self.p_dup_type = 0.1
         self.max_args = 3
         self.depth = 3
         self.stmts = 3
@@ -142,6 +143,11 @@ class PG:
             ops += ["varindex"]
         if self.allow("cast"):
             ops += ["cast"]
+        if self.int_lists():
+            if self.allow("varindex"):
+                ops += ["varindex"] * 3
+            if self.allow("builtins"):
+                ops += ["sum", "minmax_list"]
         op = rng.choice(ops)
         if op in ("+", "-", "&", "|", "^"):
             (l, wl), (r, wr) = self.gint(d - 1), self.gint(d - 1)
@@ -209,6 +215,11 @@ class PG:
             fn = rng.choice(["max", "min"])
             self.feat.add(f"{fn}{k}")
             return f"{fn}({', '.join(x for x, _ in xs)})", max(w for _, w in xs)
+        if op == "minmax_list":
+            n, t = rng.choice(self.int_lists())
+            fn = rng.choice(["max", "min"])
+            self.feat.add(f"{fn}_list")
+            return f"{fn}({n})", self.w_of(t[0])
         if op == "sum":
             ls = self.int_lists()
             if ls:
@@ -267,6 +278,11 @@ class PG:
             ops.append("allany")
         ops.append("bitops")
         ops.append("tupeq")
+        tv_ = [(n, t) for n, t in self.env.items() if isinstance(t, list) and all(not isinstance(x, list) for x in t)]
+        if any(t1 == t2 and n1 < n2 for n1, t1 in tv_ for n2, t2 in tv_):
+            ops += ["tupeq"] * 4
+        if self.bool_lists() and self.allow("builtins"):
+            ops += ["allany"] * 2
         op = rng.choice(ops)
         if op in ("and", "or"):
             k = 2 if rng.random() < 0.7 else 3
@@ -546,7 +562,10 @@ class PG:
         budget = cfg.max_bits
         args = []
         for i in range(nargs):
-            t = self.rand_type(max(1, budget // (nargs - i)))
+            if args and isinstance(args[-1][1], list) and rng.random() < cfg.p_dup_type and codec.size(args[-1][1]) <= budget:
+                t = args[-1][1]  # two collections of the same type (tuple comparisons, element-wise use)
+            else:
+                t = self.rand_type(max(1, budget // (nargs - i)))
             n = self.fresh()
             self.env[n] = t
             args.append([n, t])
@@ -610,7 +629,7 @@ def intchain_cfg(**kw):
 
 
 def collections_cfg(**kw):
-    d = dict(max_bits=10, max_args=3, depth=2, stmts=3, p_types=(0.12, 0.3, 0.45), p_matrix=0.4, mul_max_w=2)
+    d = dict(max_bits=10, max_args=3, depth=2, stmts=3, p_types=(0.12, 0.3, 0.45), p_matrix=0.4, mul_max_w=2, p_dup_type=0.5)
     d.update(kw)
     return Cfg(**d)
 
